@@ -97,10 +97,11 @@ theorem deserialize_assigns_every_carrying_member (S : Schema) (ty : String) (d 
   simp only [List.mem_append, List.mem_map, List.mem_filter]
   exact Or.inl (Or.inr ⟨f, ⟨hf, hc⟩, rfl⟩)
 
-/-- a concrete `deserialize` ends by returning the instance it built; an abstract `_deserialize` by returning its window -/
+/-- a concrete `deserialize` ends by returning the instance it built; an abstract `_deserialize` by returning its window
+    (`sizeLocal d`: the local of the struct's size member, `size_` without one) -/
 theorem deserialize_last_line (S : Schema) (ty : String) (d : StructDef) :
     (deserializeBody S ty d).getLast? =
-      some (if d.abstract then "return (size_ - len(buffer), size_)" else "return instance") := by
+      some (if d.abstract then "return (" ++ sizeLocal d ++ " - len(buffer), " ++ sizeLocal d ++ ")" else "return instance") := by
   unfold deserializeBody
   dsimp only
   exact List.getLast?_concat ..
